@@ -66,8 +66,8 @@ def run(tier):
         return v.finish()
     nrand = 1500 if not full else 100000
     for k in range(nrand):
-        c = rnd.choice(cs[:-1] if full else cs)
-        start = rnd.choice([0, 1, c - 1, c, c + 1, 7, 19, 100])
+        c = rnd.choice(cs[:-1] if full else cs) if k % 5 else rnd.choice([128, 255, 256, 1000, 1024, 2048, 32768, 65536])
+        start = rnd.choice([0, 1, c - 1, c, c + 1, 7, 19, 100]) if k % 7 else rnd.choice([65535 - 3, 65536, 70001, 131071, 2 * c - 2])
         prog = [rnd.choice(allc) for _ in range(rnd.randrange(1, 40))]
         pre = []
         if k % 3 == 1:
